@@ -309,6 +309,7 @@ def _norm(sections, fix):
     """classification aid only: sections with names lower-cased and (fix) metaclass record sets
     rewritten into the parser's representation (zone class + deleting)"""
     out = []
+    zc = sections[0][0]["cls"] if sections[0] else 1
     for si, sec in enumerate(sections):
         o = []
         for rs in sec:
@@ -317,7 +318,7 @@ def _norm(sections, fix):
             r["rds"] = [[c + 32 if 65 <= c <= 90 else c for c in rd] for rd in rs["rds"]]
             if fix and si in (1, 2) and r["cls"] in (254, 255):
                 r["del"] = r["del"] or r["cls"]
-                r["cls"] = 1
+                r["cls"] = zc
             o.append(r)
         out.append(o)
     return out
